@@ -141,3 +141,176 @@ From BB Require Gen.Effects Proofs.Effects Proofs.EffectsOk.
 Theorem C03_assemble_is_a_function_of_its_inputs : Proofs.Effects.summary_ok Gen.Effects.summary = true.
 Proof. exact Proofs.EffectsOk.summary_ok_holds. Qed.
 Print Assumptions C03_assemble_is_a_function_of_its_inputs.
+
+(* ==== C03 at the level of the TEXT of a file ==========================================================================================
+   Proofs/Program.v assemble_text: the lines of one file (after include splicing) -> lexer model -> parser model -> the 16 passes;
+   Proofs/TextLayout.v and Proofs/TextLands.v compose the front-end models with the pass theorems above.
+   text_layout r p ls cs: the chunks cs are, in order, one group per line of ls, the first line standing at output offset p;
+   what one line may contribute is line_layout (Proofs/TextLayout.v, spelled out in Props/C09.v C09_line_layout): nothing for a
+   blank / comment / label / constant line, the minimal zero padding for `align N`, one chunk of the announced size for a data
+   line, chunks carrying the line for code.
+   tot csz cs = total length of the chunks cs.
+   NO side condition is needed: unique label names and N >= 1 are enforced (a successful run implies them). *)
+From BB Require Model.Lexer Model.Parser Proofs.Program Proofs.TextGroups Proofs.TextTrack Proofs.TextLayout Proofs.TextLands.
+Import Model.Lexer Model.Parser Proofs.Program Proofs.TextGroups Proofs.TextTrack Proofs.TextLayout Proofs.TextLands.
+Open Scope list_scope.
+
+(* every label line `name:` of the text has in r_labels r EXACTLY the total size of the chunks of the lines in front of it;
+   the label names of the text are pairwise distinct *)
+Theorem C03_text_labels :
+  forall ls c0 l0 cmp r,
+    assemble_text ls c0 l0 cmp = TDone r ->
+    NoDup (text_label_names ls) /\
+    forall ls1 l text ls2 name, ls = ls1 ++ (l, text) :: ls2 -> front_line l text = FOk (Some (ILabel name)) ->
+      exists cs1 cs2, r_chunks r = cs1 ++ cs2 /\ text_layout r 0 ls1 cs1 /\ text_layout r (tot csz cs1) ls2 cs2 /\
+        assoc_str name (r_labels r) = Some (tot csz cs1).
+Proof. exact text_labels. Qed.
+Print Assumptions C03_text_labels.
+
+(* which lines those are: exactly the lines whose only token ends in a colon *)
+Theorem C03_label_lines :
+  (forall l text ts name, lex_tokens text = Some ts -> label_tokens ts name -> front_line l text = FOk (Some (ILabel name))) /\
+  (forall l ts name, parse_item l ts = FOk (ILabel name) -> label_tokens ts name).
+Proof. split. exact label_line. exact label_line_inv. Qed.
+Print Assumptions C03_label_lines.
+
+(* a branch line `beq rs1, rs2, L` .. `bgeu`, its pseudo forms `beqz rs, L` .. `bgtz`, `bgt rs, rt, L` .. `bleu` (transfer_tokens,
+   m = the 32-bit mnemonic it stands for) to a label L defined by a label line of the text and not shadowed by a constant:
+   the line owns ONE chunk; it decodes (Spec/RV32.v; with compression possibly Spec/RVC.v + expand_c) to the branch of that
+   condition whose offset + the offset p the chunk stands at = q, the total size of everything in front of the label line *)
+Theorem C03_text_branch_lands :
+  forall ls c0 l0 cmp r,
+    assemble_text ls c0 l0 cmp = TDone r ->
+    forall ls1 l text ls2 ts L m la l' text' lb,
+      ls = ls1 ++ (l, text) :: ls2 -> lex_tokens text = Some ts -> transfer_tokens ts L m -> m <> "jal"%string ->
+      assoc_str L (r_consts r) = None ->
+      ls = la ++ (l', text') :: lb -> front_line l' text' = FOk (Some (ILabel L)) ->
+      exists cs1 g cs2 ca cb,
+        r_chunks r = cs1 ++ g ++ cs2 /\ text_layout r 0 ls1 cs1 /\
+        r_chunks r = ca ++ cb /\ text_layout r 0 la ca /\
+        let p := tot csz cs1 in let q := tot csz ca in
+        ((exists w c r1 r2, g = [(l, CBytes (le_bytes 4 w))] /\ decode32 w = Some (Branch c r1 r2 (q - p)) /\ bcond_name c = m) \/
+         (cmp = true /\ exists h ci c r1, g = [(l, CBytes (le_bytes 2 h))] /\ decode16 h = Some ci /\
+                                            expand_c ci = Branch c r1 0 (q - p) /\ bcond_name c = m)).
+Proof. exact text_branch_lands. Qed.
+Print Assumptions C03_text_branch_lands.
+
+(* `jal rd, L`, `jal L`, `j L` *)
+Theorem C03_text_jal_lands :
+  forall ls c0 l0 cmp r,
+    assemble_text ls c0 l0 cmp = TDone r ->
+    forall ls1 l text ls2 ts L la l' text' lb,
+      ls = ls1 ++ (l, text) :: ls2 -> lex_tokens text = Some ts -> transfer_tokens ts L "jal"%string ->
+      assoc_str L (r_consts r) = None ->
+      ls = la ++ (l', text') :: lb -> front_line l' text' = FOk (Some (ILabel L)) ->
+      exists cs1 g cs2 ca cb,
+        r_chunks r = cs1 ++ g ++ cs2 /\ text_layout r 0 ls1 cs1 /\
+        r_chunks r = ca ++ cb /\ text_layout r 0 la ca /\
+        let p := tot csz cs1 in let q := tot csz ca in
+        ((exists w rd, g = [(l, CBytes (le_bytes 4 w))] /\ decode32 w = Some (Jal rd (q - p))) \/
+         (cmp = true /\ exists h ci rd, g = [(l, CBytes (le_bytes 2 h))] /\ decode16 h = Some ci /\ expand_c ci = Jal rd (q - p))).
+Proof. exact text_jal_lands. Qed.
+Print Assumptions C03_text_jal_lands.
+
+(* `call L` / `tail L` (call_tokens) to a label line of the text: ONE instruction jal landing on it, or the pair
+   auipc r1, hi ; jalr r2, r1, lo  (far_at: the jalr reads the register the auipc wrote; two 4-byte chunks of that line) with
+   p + hi * 4096 + lo = q modulo 2^32, p the offset of the auipc, q the total size of everything in front of the label line *)
+Theorem C03_text_call_lands :
+  forall ls c0 l0 cmp r,
+    assemble_text ls c0 l0 cmp = TDone r ->
+    forall ls1 l text ls2 ts L la l' text' lb,
+      ls = ls1 ++ (l, text) :: ls2 -> lex_tokens text = Some ts -> call_tokens ts L ->
+      assoc_str L (r_consts r) = None ->
+      ls = la ++ (l', text') :: lb -> front_line l' text' = FOk (Some (ILabel L)) ->
+      exists cs1 g cs2 ca cb,
+        r_chunks r = cs1 ++ g ++ cs2 /\ text_layout r 0 ls1 cs1 /\
+        r_chunks r = ca ++ cb /\ text_layout r 0 la ca /\
+        let p := tot csz cs1 in let q := tot csz ca in
+        ((exists w rd, g = [(l, CBytes (le_bytes 4 w))] /\ decode32 w = Some (Jal rd (q - p))) \/
+         (cmp = true /\ exists h ci rd, g = [(l, CBytes (le_bytes 2 h))] /\ decode16 h = Some ci /\ expand_c ci = Jal rd (q - p)) \/
+         (exists w1 w2 r1 r2 hi lo, g = [(l, CBytes (le_bytes 4 w1)); (l, CBytes (le_bytes 4 w2))] /\
+            decode32 w1 = Some (Auipc r1 hi) /\ decode32 w2 = Some (Jalr r2 r1 lo) /\ (p + hi * 4096 + lo) mod 2^32 = q mod 2^32)).
+Proof.
+  intros ls c0 l0 cmp r H ls1 l text ls2 ts L la l' text' lb E1 Hx Ht Hc E2 Hf.
+  destruct (text_call_lands _ _ _ _ _ H _ _ _ _ _ _ _ _ _ _ E1 Hx Ht Hc E2 Hf) as (cs1 & g & cs2 & ca & cb & A1 & A2 & A3 & A4 & A5).
+  exists cs1, g, cs2, ca, cb. repeat split; auto. cbv zeta.
+  destruct A5 as [[(w & -> & Hw)|(-> & h & -> & Hh)]|Hfar].
+  - left. unfold lands32 in Hw. change (String.eqb "jal" "jal") with true in Hw. cbv iota in Hw. destruct Hw as (rd & Hd). eauto.
+  - right; left. split; [reflexivity|]. unfold lands16 in Hh. destruct Hh as (ci & Hd & Hh).
+    change (String.eqb "jal" "jal") with true in Hh. cbv iota in Hh. destruct Hh as (rd & He). eauto 6.
+  - right; right. exact Hfar.
+Qed.
+Print Assumptions C03_text_call_lands.
+
+(* (the general form -- the name L bound by the initial labels, or shadowed by a constant: the transfer lands on whatever value the
+   name has in ChainMap(constants, labels) at the end -- is Proofs/TextLands.v text_transfer / text_call) *)
+
+(* non-vacuity: start: / beq x8, zero, done / (blank) / align 8 / dw 0x12345678 / K = 5 / done: / jal x1, start / bnez x9, start / j done
+   assembles in both modes, and the hypotheses of the theorems above hold of its lines; e.g. without compression the chunk of
+   line 2 stands at 0 and decodes to beq x8, x0, +12 = the value of `done` (4 + 4 bytes of padding + 4); with compression it is
+   c.beqz x8, +12 (2 + 6 + 4) *)
+Example C03_text_example :
+  (forall cmp, assemble_text ex_text [] [] cmp = TDone (ex_result cmp)) /\
+  r_labels (ex_result true) = [("start", 0); ("done", 12)]%string /\
+  decode32 (99 + 6 * 256 + 4 * 65536) = Some (Branch BEQ 8 0 (12 - 0)) /\
+  (exists ci, decode16 (17 + 196 * 256) = Some ci /\ expand_c ci = Branch BEQ 8 0 (12 - 0)) /\
+  decode32 (239 + 240 * 256 + 95 * 65536 + 255 * 16777216) = Some (Jal 1 (0 - 12)) /\
+  (exists ci, decode16 (213 + 63 * 256) = Some ci /\ expand_c ci = Jal 1 (0 - 12)).
+Proof.
+  split. exact ex_text_runs. split. reflexivity. split. vm_compute; reflexivity. split. eexists; split; vm_compute; reflexivity.
+  split. vm_compute; reflexivity. eexists; split; vm_compute; reflexivity.
+Qed.
+Example C03_text_example_hyps :
+  ex_text = [(exT 1, "start:")%string] ++ (exT 2, "    beq x8, zero, done   # forward, over an align and a data line")%string :: skipn 2 ex_text /\
+  lex_tokens "    beq x8, zero, done   # forward, over an align and a data line" = Some ["beq"; "x8"; "zero"; "done"]%string /\
+  transfer_tokens ["beq"; "x8"; "zero"; "done"]%string "done" "beq" /\
+  (forall cmp, assoc_str "done"%string (r_consts (ex_result cmp)) = None) /\
+  ex_text = firstn 6 ex_text ++ (exT 7, "done:")%string :: skipn 7 ex_text /\
+  front_line (exT 7) "done:" = FOk (Some (ILabel "done")) /\
+  ex_text = firstn 7 ex_text ++ (exT 8, "    jal x1, start")%string :: skipn 8 ex_text /\
+  lex_tokens "    jal x1, start" = Some ["jal"; "x1"; "start"]%string /\ transfer_tokens ["jal"; "x1"; "start"]%string "start" "jal" /\
+  transfer_tokens ["bnez"; "x9"; "start"]%string "start" "bne" /\ transfer_tokens ["j"; "done"]%string "done" "jal" /\
+  ex_text = [] ++ (exT 1, "start:")%string :: skipn 1 ex_text /\ front_line (exT 1) "start:" = FOk (Some (ILabel "start")) /\
+  ex_text = firstn 3 ex_text ++ (exT 4, "    align 8")%string :: skipn 4 ex_text /\ front_line (exT 4) "    align 8" = FOk (Some (IAlign 8)).
+Proof. exact ex_text_hyps. Qed.
+
+(* non-vacuity for call / tail: start: / call far / tail start / align 2097152 / far: / call start  assembles in both modes; the
+   first call is the pair auipc x1, 0x200 ; jalr x1, x1, 0 standing at 0 (0 + 0x200 * 4096 + 0 = 2097152 = far), the tail is one jal *)
+Example C03_text_call_example :
+  (forall cmp, exists r, assemble_text ex_call [] [] cmp = TDone r /\ r_labels r = [("start", 0); ("far", 2097152)]%string /\ r_consts r = []) /\
+  ex_call = [(exT 1, "start:")%string] ++ (exT 2, "    call far")%string :: skipn 2 ex_call /\
+  lex_tokens "    call far" = Some ["call"; "far"]%string /\ call_tokens ["call"; "far"]%string "far" /\
+  ex_call = firstn 4 ex_call ++ (exT 5, "far:")%string :: skipn 5 ex_call /\ front_line (exT 5) "far:" = FOk (Some (ILabel "far")) /\
+  decode32 (151 + 0 * 256 + 32 * 65536 + 0 * 16777216) = Some (Auipc 1 512) /\
+  decode32 (231 + 128 * 256) = Some (Jalr 1 1 0) /\ (0 + 512 * 4096 + 0) mod 2^32 = 2097152 mod 2^32.
+Proof.
+  split. exact ex_call_runs. repeat split; try reflexivity. constructor. simpl; tauto.
+Qed.
+
+(* ---- what is NOT true, with witnesses (both reproduce on the real assembler) -------------------------------------------------------------
+   (a) EXPLICITLY written compressed transfers with a bare label do not land on it: parse_item hands the operand of c.j / c.jal / c.beqz /
+       c.bnez to parse_immediate (a bare name is Arithmetic: the ABSOLUTE value of the label), not to the reference logic of jal / beq
+       (a bare name is %offset).  `addi x0,x0,0 / loop: / c.j loop / c.beqz x8, loop`: loop = 4; the c.j standing at 4 carries +4
+       (lands on 8), the c.beqz standing at 6 carries +4 (lands on 10).  transfer_tokens therefore excludes these spellings; the
+       compressed forms CHOSEN by the compression pass are covered by C03_text_branch_lands / C03_text_jal_lands. *)
+Example C03_text_explicit_compressed_bare_label_refuted :
+  exists r, assemble_text ex_cj [] [] false = TDone r /\
+    assoc_str "loop"%string (r_labels r) = Some 4 /\ assoc_str "loop"%string (r_consts r) = None /\
+    r_chunks r = [(exT 1, CBytes [19; 0; 0; 0]); (exT 3, CBytes (le_bytes 2 (17 + 160 * 256))); (exT 4, CBytes (le_bytes 2 (17 + 192 * 256)))] /\
+    decode16 (17 + 160 * 256) = Some (CJ 4) /\ 4 + 4 <> 4 /\
+    decode16 (17 + 192 * 256) = Some (CBeqz 8 4) /\ 6 + 4 <> 4.
+Proof.
+  eexists. split. exact ex_cj_runs. repeat split; try reflexivity; try (intro E; discriminate E).
+Qed.
+(* (b) the hypothesis `assoc_str L (r_consts r) = None` is needed: a constant named like a label shadows it (ChainMap(constants, labels)).
+       `L = 100 / L: / j L`: the label L is 0, the jump standing at 0 carries +100. *)
+Example C03_text_constant_shadows_label :
+  exists r, assemble_text ex_shadow [] [] false = TDone r /\
+    assoc_str "L"%string (r_labels r) = Some 0 /\ assoc_str "L"%string (r_consts r) = Some 100 /\
+    r_chunks r = [(exT 3, CBytes (le_bytes 4 (111 + 0 * 256 + 64 * 65536 + 6 * 16777216)))] /\
+    decode32 (111 + 0 * 256 + 64 * 65536 + 6 * 16777216) = Some (Jal 0 100).
+Proof. eexists. split. exact ex_shadow_runs. repeat split; reflexivity. Qed.
+
+(* ---- for the WHOLE model of asm.assemble (Proofs/Whole.v: reader with include splicing in front) a successful run IS a successful run
+   of assemble_text on the lines the reader delivers (Proofs/TextWhole.v whole_is_text), so every C03_text theorem applies with
+   ls := map to_text lns.  Not restated here: Whole.v would pull the no-raw-exception development into the cone of this file. *)
